@@ -149,6 +149,7 @@ func cardMultigetDoc(r *rt.Rand, p davPaths) string {
 }
 
 const icalDoc = "BEGIN:VCALENDAR\r\nVERSION:2.0\r\nPRODID:-//vsim//EN\r\nBEGIN:VEVENT\r\nUID:put-1@example.org\r\nDTSTAMP:20240101T100000Z\r\nDTSTART:20240102T100000Z\r\nDTEND:20240102T110000Z\r\nSUMMARY:Uploaded; with\\, escapes\r\nEND:VEVENT\r\nEND:VCALENDAR"
+
 // Well-formed objects of other shapes than the two above: what a client may
 // legally store (a vCard needs no UID, EMAIL or N; a calendar object may be a
 // to-do, an all-day or recurring event, or carry a VTIMEZONE next to its event).
